@@ -631,3 +631,72 @@ mut("c13-resolve-no-ban", ["C13", "C03"], [(BM, '''				err := b.cfg.BanPeer(
 				delete(checkpoints, peer)
 				break''', '''				delete(checkpoints, peer)
 				break''')], ["C13.O2", "C03.O1"])
+
+# ---- C14 ----
+HI = "chainimport/headers_import.go"
+mut("c14-height-as-index", ["C14"], [(HI, "	batchStartIdx := sourceStartIdx\n", "	batchStartIdx := startHeight\n")], ["C14.K1"])
+mut("c14-readbatch-height", ["C14"], [(HI, '''		filterBatch, filterErr := filterIter.ReadBatch(
+			batchStartIdx, blockIter.GetEndIndex(),''', '''		filterBatch, filterErr := filterIter.ReadBatch(
+			batchStart, blockIter.GetEndIndex(),''')], ["C14.K1"])
+mut("c14-lastbatch-index-vs-height", ["C14"], [(HI, "isLastBatch := batchEnd >= endHeight", "isLastBatch := batchEnd >= filterIter.GetEndIndex()")], ["C14.K1"])
+mut("c14-process-before-validate", ["C14"], [(HI, '''	if err := h.validateChainContinuity(); err != nil {
+		return nil, fmt.Errorf("failed to validate continuity of "+
+			"import headers chain with target chain: %v", err)
+	}
+''', '''	if err := h.validateChainContinuity(); err != nil {
+		log.Warnf("continuity: %v", err)
+	}
+''')], ["C14.G1"])
+mut("c14-skip-filter-validation", ["C14"], [(HI, '''	err = h.filterHeadersValidator.Validate(ctx, filterHeadersIterator)
+	if err != nil {
+		return nil, fmt.Errorf("failed to validate filter "+
+			"headers: %w", err)
+	}
+''', '''	_ = filterHeadersIterator
+''')], ["C14.G1"])
+mut("c14-pair-skips-context", ["C14"], [("chainimport/block_headers_validator.go", '''	if err := blockchain.CheckBlockHeaderContext(
+		currBlockHeader.BlockHeader, parentCtx, v.flags, chainCtx, true,
+	); err != nil {
+		return fmt.Errorf("block header contextual validation "+
+			"failed: %w", err)
+	}
+''', '''	_, _ = parentCtx, chainCtx
+''')], ["C14.G1"])
+mut("c14-pair-ignores-link", ["C14"], [("chainimport/block_headers_validator.go", '''	if !currBlockHeader.PrevBlock.IsEqual(&prevHash) {
+		return fmt.Errorf("header chain broken: current header's "+
+			"PrevBlock (%v) doesn't match previous header's hash "+
+			"(%v)", currBlockHeader.PrevBlock, prevHash)
+	}
+''', '''	_ = prevHash
+''')], ["C14.G1"])
+mut("c14-no-block-rollback", ["C14"], [(HI, '''		_, rollbackErr := blkStore.RollbackBlockHeaders(
+			blockHeadersToTruncate,
+		)''', '''		var rollbackErr error
+		_ = blkStore''')], ["C14.O1"])
+mut("c14-len-mismatch-ignored", ["C14"], [(HI, '''		if len(blockHeaders) != len(filterHeaders) {
+			return 0, fmt.Errorf("mismatch between block headers "+
+				"(%d) and filter headers (%d)",
+				len(blockHeaders), len(filterHeaders))
+		}
+''', '''		if len(blockHeaders) != len(filterHeaders) {
+			log.Warnf("mismatch between block headers "+
+				"(%d) and filter headers (%d)",
+				len(blockHeaders), len(filterHeaders))
+		}
+''')], ["C14.G2"])
+mut("c14-batch-error-continues", ["C14"], [(HI, '''	err := h.writeHeadersToTargetStores(
+		blockHeaders, filterHeaders, batchStart, batchEnd,
+	)
+	if err != nil {
+		return 0, fmt.Errorf("failed to write headers to target "+
+			"stores: %v", err)
+	}
+''', '''	err := h.writeHeadersToTargetStores(
+		blockHeaders, filterHeaders, batchStart, batchEnd,
+	)
+	if err != nil {
+		log.Errorf("failed to write headers to target "+
+			"stores: %v", err)
+	}
+''')], ["C14.G2"])
+mut("c14-quiet-rename-index-var", ["C14"], [(HI, "	batchStartIdx := sourceStartIdx\n", "	batchStartIdx := sourceStartIdx + 0\n")], [])
